@@ -487,11 +487,11 @@ macro_rules! rec_harness {
 rec_harness!(bc_salted_rec_s12_k72, 12, 72, true, false);
 //@ harness name=bc_salted_rec_s16_k8 prop=C14,C20 tier=quick bits=1344 stub=1 cbmc_args=--max-field-sensitivity-array-size;1100 est=450 need=14 desc="as bc_salted_rec_s12_k72 for bcrypt's 16-byte salt and an 8-byte key"
 rec_harness!(bc_salted_rec_s16_k8, 16, 8, true, false);
-//@ harness name=bc_salted_rec_s5_k57 prop=C14,C20 tier=quick bits=1344 stub=1 cbmc_args=--max-field-sensitivity-array-size;1100 est=470 need=14 desc="as bc_salted_rec_s12_k72 for a 5-byte salt and a 57-byte key (every word straddles a wrap-around)"
+//@ harness name=bc_salted_rec_s5_k57 prop=C14,C20 tier=thorough bits=1344 stub=1 cbmc_args=--max-field-sensitivity-array-size;1100 est=470 need=14 desc="as bc_salted_rec_s12_k72 for a 5-byte salt and a 57-byte key (every word straddles a wrap-around)"
 rec_harness!(bc_salted_rec_s5_k57, 5, 57, true, false);
 //@ harness name=bc_zero_salt_rec_k72 prop=C14 tier=quick bits=1152 stub=1 cbmc_args=--max-field-sensitivity-array-size;1100 est=465 need=14 desc="salted_expand_key(16 zero bytes, 72-byte key) behaves as the unsalted expansion (same P ^ key, arguments = previous results, same stores): with bc_expand_key_rec_k72 the zero-salt equivalence"
 rec_harness!(bc_zero_salt_rec_k72, 16, 72, true, true);
 //@ harness name=bc_expand_key_rec_k72 prop=C14,C20,C09 quick=C09 tier=quick bits=1152 stub=1 cbmc_args=--max-field-sensitivity-array-size;1100 est=140 need=7 desc="bc_expand_key(72-byte key): P ^ cycled key seen by the first encryption, each argument = the previous result, results stored in order (Schneier's expansion with the key cycled); recording stand-in for encrypt"
 rec_harness!(bc_expand_key_rec_k72, 16, 72, false, false);
-//@ harness name=bc_expand_key_rec_k7 prop=C09,C14,C20 quick=C14 tier=quick bits=1152 stub=1 cbmc_args=--max-field-sensitivity-array-size;1100 need=7 desc="as bc_expand_key_rec_k72 for a 7-byte key (odd length: every key word straddles the wrap-around; what Blowfish::new_from_slice runs for a 56-bit key)"
+//@ harness name=bc_expand_key_rec_k7 prop=C09,C14,C20 tier=quick bits=1152 stub=1 cbmc_args=--max-field-sensitivity-array-size;1100 need=7 desc="as bc_expand_key_rec_k72 for a 7-byte key (odd length: every key word straddles the wrap-around; what Blowfish::new_from_slice runs for a 56-bit key)"
 rec_harness!(bc_expand_key_rec_k7, 16, 7, false, false);
